@@ -955,6 +955,19 @@ def prod_case_list(tier):
                 if z % n:
                     add("verify", "F", curve=name, q=_infinity_Q(c, z, r), z=z, r=r, s=s)
                 add("verify", "!E_NOPOINT", curve=name, q=(Q[0], (Q[1] + 1) % p), z=z, r=r, s=s)
+                # the sum is the point at infinity AND r is the abscissa of one of the operands (x(Q) or x(G)): a verifier that
+                # reads a coordinate buffer after a failed "get affine coordinates" answers True here (seed C01-e1)
+                rq = Q[0] % n
+                zq = (-rq * d) % n
+                if rq and zq:
+                    for s2 in (s, 1, n - 1, rng.randrange(1, n)):
+                        add("verify", "F", curve=name, q=Q, z=zq, r=rq, s=s2)
+                        add("verify", "F", curve=name, q=Q, z=zq + n if zq + n < 2 ** 256 else zq, r=rq, s=s2)
+                rg = c.g[0] % n
+                if rg and z % n:
+                    add("verify", "F", curve=name, q=_infinity_Q(c, z, rg), z=z, r=rg, s=s)
+                    Qi = _infinity_Q(c, z, rg)
+                    add("verify", "F", curve=name, q=Qi, z=z, r=Qi[0] % n, s=s) if Qi[0] % n else None
             # recovery: every key returned verifies (checked against the reference predicate by the harness), signer included
             exp = []
             ir = pow(r, -1, n)
